@@ -13,6 +13,9 @@ pub enum Fault {
     ErrCount,
     /// 300 rpc-errors of severity warning, then one of severity error, then `<ok/>`: not an acknowledgement
     ManyWarnErrOk,
+    /// an rpc-error of severity error followed by an element that merely *sounds* positive
+    /// (`<load-success/>`, Junos vocabulary of other replies): not an acknowledgement
+    ErrLoadSuccess,
     /// NOT a fault: a warning followed by `<ok/>` (for bare replies: a warning only) is a positive
     /// acknowledgement; the run must go on exactly as without it
     WarnOk,
@@ -29,6 +32,7 @@ impl Fault {
             Fault::ErrWarnOk => "errwarnok",
             Fault::ErrCount => "errcount",
             Fault::ManyWarnErrOk => "manywarnerrok",
+            Fault::ErrLoadSuccess => "errloadsuccess",
             Fault::WarnOk => "warnok",
             Fault::Malformed => "malformed",
             Fault::WrongId => "wrongid",
@@ -42,6 +46,7 @@ impl Fault {
             "errwarnok" => Fault::ErrWarnOk,
             "errcount" => Fault::ErrCount,
             "manywarnerrok" => Fault::ManyWarnErrOk,
+            "errloadsuccess" => Fault::ErrLoadSuccess,
             "warnok" => Fault::WarnOk,
             "malformed" => Fault::Malformed,
             "wrongid" => Fault::WrongId,
@@ -172,6 +177,13 @@ pub async fn serve(peer: mt::Peer, script: Script, log: Arc<Mutex<Log>>) {
                     reply(&id, &format!("<load-configuration-results>{many}{ERR}<ok/></load-configuration-results>"))
                 } else {
                     reply(&id, &format!("{many}{ERR}{ok}"))
+                }
+            }
+            Some(Fault::ErrLoadSuccess) => {
+                if name == "load-configuration" {
+                    reply(&id, &format!("<load-configuration-results>{ERR}<load-success/></load-configuration-results>"))
+                } else {
+                    reply(&id, &format!("{ERR}<load-success/>"))
                 }
             }
             Some(Fault::ErrCount) => {
